@@ -49,6 +49,58 @@
 
 #include "ivmt.h"
 
+static int first_seg = 1;
+int ivmt_trace_off;
+
+void vk_trace(const char *fmt, ...)
+{
+	va_list ap;
+	static int nseg;
+	static char trace_lock;
+
+	/* free-running (TSan) mode: logging would synchronise the threads with each other and hide races */
+	if (ivmt_trace_off && strcmp(fmt, "D") != 0)
+		return;
+
+	/* the log is shared by all threads (serialised anyway under the baton; a real lock when free-running) */
+	while (__atomic_test_and_set(&trace_lock, __ATOMIC_ACQUIRE))
+		;
+	if (++nseg > 6000) {
+		fputs(" | OVERFLOW", stdout);
+		fflush(stdout);
+		_exit(3);
+	}
+	if (!first_seg)
+		fputs(" | ", stdout);
+	first_seg = 0;
+	printf("%d:", mt_self());
+	va_start(ap, fmt);
+	vprintf(fmt, ap);
+	va_end(ap);
+	fflush(stdout);
+	__atomic_clear(&trace_lock, __ATOMIC_RELEASE);
+}
+
+void vk_end(const char *why)
+{
+	vk_trace("%s", why);
+	fflush(stdout);
+	_exit(0);
+}
+
+void vk_before_wait(int nwait)
+{
+	(void)nwait;
+}
+
+int vk_rotation(int nwait)
+{
+	(void)nwait;
+	return 0;
+}
+
+char backend[8] = "et";
+
 struct tctx tc[NTHR];
 
 int vk_is_main_pollfds(const void *pfds)
@@ -232,6 +284,23 @@ void do_action(struct tctx *c, const char *a)
 		vk_trace("a y");
 		mt_yield();
 		break;
+	case 's':
+		if (a[1] == 'l') {
+			/* sl<ms>: let real time pass (free-running programs); a plain yield point under the baton */
+			vk_trace("a %s", a);
+			if (mt_active)
+				mt_yield();
+			else
+				usleep(1000 * atoi(a + 2));
+			break;
+		}
+		break;
+	case 'j':
+		/* jn: wait until every other harness-created thread has finished (used by free-running programs
+		 * before they unregister objects that other threads post to) */
+		vk_trace("a jn");
+		mt_join_all();
+		break;
 	case 't':
 		j = obj(j);
 		if (a[1] == 'r' && !iv_timer_registered(c->tm[j])) {
@@ -374,6 +443,22 @@ void do_action(struct tctx *c, const char *a)
 			}
 			break;
 		}
+		}
+		break;
+	case 'h':
+		/* endings of a helper thread (scripts H<k>h<n>, run by tc<n>); only outside the loop threads:
+		   hi = iv_init() in the helper, hd = iv_deinit(), hx = pthread_exit() (logged Te by mt.c) */
+		if (mt_self() < NTHR && tc[mt_self()].kind != 0)
+			break;
+		if (a[1] == 'i' && !iv_inited()) {
+			vk_trace("a hi");
+			iv_init();
+		} else if (a[1] == 'd' && iv_inited()) {
+			vk_trace("a hd");
+			iv_deinit();
+		} else if (a[1] == 'x') {
+			vk_trace("a hx");
+			pthread_exit(NULL);
 		}
 		break;
 	case 'q':
